@@ -38,7 +38,8 @@ MODULES = {
             "r500": {"module": "MC_Ribbon", "cfg": "Graph_Ribbon_500.cfg", "target": "ribbon500"},
         },
     },
-    "glide": {"trace_spec": "Trace_Glide", "trace_cfg": "Trace_Glide.cfg", "graphs": {}},
+    "glide": {"trace_spec": "Trace_Glide", "trace_cfg": "Trace_Glide.cfg",
+              "graphs": {"deadband": {"module": "MC_Glide", "cfg": "Graph_Glide.cfg", "target": "glide"}}},
     "params": {"trace_spec": "Trace_Params", "trace_cfg": "Trace_Params.cfg", "graphs": {}},
     "voice": {"trace_spec": "Trace_Voice", "trace_cfg": "Trace_Voice.cfg", "graphs": {}},
     "lfo": {"trace_spec": "Trace_Lfo", "trace_cfg": "Trace_Lfo.cfg",
@@ -156,7 +157,8 @@ PROPS.update({
     "C13": {"module": "glide", "mc": _G_MC, "traces": _G_TR,
             "rule": "distinct (sample rate, requested time) settings exercised; every logged sample evaluates the "
                     "one-step hull, range, approach and crossing predicates"},
-    "C14": {"module": "glide", "mc": _G_MC, "traces": _G_TR},
+    # every transition (and pair, and walk) of the set_time dead-band graph on the real processor at 100 Hz
+    "C14": {"module": "glide", "mc": _G_MC, "traces": _G_TR, "graphs": [("glide", "deadband", QT)]},
 })
 
 PROPS.update({
